@@ -56,6 +56,15 @@ def gen(rng, tier):
             if dtype == 'float32':
                 return rng.randint(-2000, 2000) / 16.0
             return rng.randint(-50, 50)
+        unit = rng.choice([None, None, 'tiny', 'offset', 'huge'])
+        if unit and dtype in ('float32', 'list', 'int64') and kind != 'rmean':
+            base_val = val
+            off = rng.choice([5000.0, 1e6, -3e7])
+
+            def val(base_val=base_val, unit=unit, off=off):      # noqa: F811
+                v = float(base_val())
+                return v * 1e-9 if unit == 'tiny' else off + v * 1e-3 if unit == 'offset' else v * 1e12
+            dtype = 'float64'
         sigma = rng.choice([0.05, 0.12, 0.125, 0.126, 0.13, 0.15, 0.19, 0.2, 0.22, 0.2499, 0.25, 0.26, 0.3, 0.374, 0.375, 0.4,
                             0.62, 0.625, 0.63, 0.9, round(rng.uniform(0.05, 0.7), 4)])
         if kind == 'gauss1':
@@ -84,7 +93,7 @@ def impl(case):
         x = [list(r) if isinstance(r, list) else r for r in case['x']]
         before = [list(r) if isinstance(r, list) else r for r in x]
     else:
-        x = np.array(case['x'], dtype={None: float, 'bool': bool, 'float32': np.float32}.get(dt, dt))
+        x = np.array(case['x'], dtype={None: float, 'bool': bool, 'float32': np.float32, 'float64': np.float64}.get(dt, dt))
         before = x.copy()
     if case['k'].startswith('gauss'):
         r = mh.utils.filtering.gaussian_filter(x, case['sigma'])
@@ -152,7 +161,7 @@ def judge(case, ibc, answers):
             continue
         out = [float.fromhex(v) for v in c['v']]
         flat = [abs(v) for row in (x if twod else [x]) for v in row]
-        scale = max(1.0, max(flat))
+        scale = max(flat) or 1.0      # the filters are linear: the tolerance scales with the data (tiny units, large offsets)
         if case['k'].startswith('gauss'):
             w = weights(case['sigma'])
             wq = [Fraction(v) for v in w]
